@@ -209,6 +209,10 @@ structure Summary where
   /-- `mro[1:-1]` of the last class, nearest first, as `_collect_base_attrs*` see it -/
   bases : List Init.BaseInfo
   self : Option Init.BaseInfo
+  /-- the same bases as `_collect_base_attrs` (collect_by_mro) sees them: each class's *own*
+      `__attrs_attrs__` (`base_cls.__dict__`), so a plain class contributes nothing -/
+  basesOwn : List Init.BaseInfo
+  selfOwn : Option Init.BaseInfo
   /-- facts about the last class itself -/
   lastAttrs : Bool
   lastSlots : Bool
@@ -223,7 +227,7 @@ structure Summary where
 
 def Summary.init : Summary :=
   { attrs := [], gs := .dflt, hash := .identity, eq := Option.none, frozen := false, slotNames := [], hasDict := false,
-    hasWeakref := false, slotEntries := [], slotsAttr := Option.none, bases := [], self := Option.none,
+    hasWeakref := false, slotEntries := [], slotsAttr := Option.none, bases := [], self := Option.none, basesOwn := [], selfOwn := Option.none,
     lastAttrs := false, lastSlots := false, lastCache := false, lastByMro := false, lastOwn := [],
     lastOptOut := false, ok := true }
 
@@ -320,6 +324,9 @@ def step (s : Summary) (c : Cls) : Summary :=
     slotsAttr := if c.slots then some tuple else s.slotsAttr,
     bases := s.self.toList ++ s.bases,
     self := some { hasSlotsDunder := c.slots, attrs := attrs'.map (fun p => (p.1.name, p.2)) },
+    basesOwn := s.selfOwn.toList ++ s.basesOwn,
+    selfOwn := some { hasSlotsDunder := c.slots,
+                      attrs := if c.isAttrs then attrs'.map (fun p => (p.1.name, p.2)) else [] },
     lastAttrs := c.isAttrs, lastSlots := c.slots, lastCache := c.isAttrs && c.cacheHash,
     lastByMro := c.collectByMro, lastOwn := c.ownNames, lastOptOut := c.isAttrs && c.gs == .f,
     ok := s.ok && clsWf c frozen' }
@@ -327,7 +334,9 @@ def step (s : Summary) (c : Cls) : Summary :=
 def summarize (chain : List Cls) : Summary := chain.foldl step Summary.init
 
 /-- `_is_slot_attr(name, base_attr_map)` as the last class's `__init__` generator sees it -/
-def Summary.belief (s : Summary) (n : String) : Bool := Init.slotBelief s.lastByMro s.lastOwn s.bases n
+def Summary.belief (s : Summary) (n : String) : Bool :=
+  if s.lastByMro then Init.slotBelief true s.lastOwn s.basesOwn n
+  else Init.slotBelief false s.lastOwn s.bases n
 
 def Summary.cached (s : Summary) : Bool :=
   match s.hash with
